@@ -7,6 +7,7 @@ pub mod c06;
 pub mod c07;
 pub mod c08;
 pub mod c09;
+pub mod c10;
 pub mod c12;
 pub mod c13;
 pub mod c15;
@@ -29,6 +30,7 @@ pub fn table() -> Vec<(&'static str, PropFn)> {
         ("C07", c07::run as PropFn),
         ("C08", c08::run_prop as PropFn),
         ("C09", c09::run as PropFn),
+        ("C10", c10::run as PropFn),
         ("C12", c12::run as PropFn),
         ("C13", c13::run as PropFn),
         ("C15", c15::run as PropFn),
